@@ -141,11 +141,35 @@ def run(res, tier, rng):
         b = call(normalize_url, call(infer_redirection, u), infer_redirection=False)
         if a != b and not isinstance(call(infer_redirection, u), Exc):
             res.violation("property", "normalize_url(u) != normalize_url(infer_redirection(u), infer_redirection=False)", input=dict(url=u), impl=[a, b])
+    # the same family on redirect-carrying urls: the letter case of the redirector's host and the order of its items
+    # do not decide whether the redirection is seen
+    import urllib.parse as UP
+    for _ in range(600 if tier == "quick" else 10000):
+        w = wrap_redirect(gen_su(rng, hosts=hosts).render(), rng)
+        if "://" not in w:
+            w = "http://" + w
+        try:
+            r = UP.urlsplit(w)
+        except ValueError:
+            continue
+        nb = call(normalize_url, w)
+        vs = [("host case of a redirect-carrying url", UP.urlunsplit(r._replace(netloc=r.netloc.upper())))]
+        items = r.query.split("&") if r.query else []
+        if len(items) >= 2:
+            vs.append(("item order of a redirect-carrying url", UP.urlunsplit(r._replace(query="&".join(items[::-1])))))
+            vs.append(("item order of a redirect-carrying url", UP.urlunsplit(r._replace(query="&".join(items[1:] + items[:1])))))
+        for name, v in vs:
+            res.evaluations += 1
+            nv = call(normalize_url, v)
+            if nv != nb:
+                res.violation("property", "documented-irrelevant variation '%s' changes normalize_url" % name, input=dict(url=w, variant=v), impl=[nb, nv])
+            else:
+                nontriv.add(v)
     res.nontrivial = nontriv
     res.rule = ("structured base urls x every documented-irrelevant transformation alone (scheme / none / '//', userinfo, www / www2 / m / mobile / amp. / amp- / stacked subdomains, default ports, "
                 "host case, trailing slash, trailing index / default page, non-routing fragment, a tracking / session / AMP item at a random position, every permutation of 2-4 items, "
                 "'&amp;' / '&amp%3B' for '&') plus C02's spelling transformations, and 6 random compositions of 2-4 of them per base (each on its own part of the url: dotted labels outside an 'amp-' prefix, "
-                "whitespace / control characters around the string in any order); default options, quoted=True and platform_aware=True; redirection inference as a pre-step on urls of the C01 grammar wrapped in "
+                "whitespace / control characters around the string in any order); default options, quoted=True and platform_aware=True; host case and item order of redirect-carrying urls (every family infer_redirection knows); redirection inference as a pre-step on urls of the C01 grammar wrapped in "
                 "redirects. Non-trivial = distinct variants that normalize to their base's form.")
     res.sample(dict(url="https://www.lemonde.fr/a/index.html?utm_source=x&b=1#top", normalized=call(normalize_url, "https://www.lemonde.fr/a/index.html?utm_source=x&b=1#top")))
     res.theorems = THEOREMS
